@@ -114,8 +114,15 @@ def list_of(idx, cls, name, depth=0):
     return out
 
 
+
+PREDICATES = [
+    ("psyclone.psyir.nodes.call.Call", "is_pure", True),
+]
+
 def check(idx, run):
     run.explanation = __doc__
+    from sa.guards import check_predicates
+    check_predicates(idx, run, "C12.R1", PREDICATES)
     cls = idx.get_class(CTU)
     mod = cls.module
     # R1 outputs
@@ -263,6 +270,8 @@ def check(idx, run):
             unpack = [a for a in loop.body if isinstance(a, ast.Assign) and
                       isinstance(a.targets[0], ast.Tuple) and pops and
                       ast.unparse(a.value) == ast.unparse(pops[0].targets[0])]
+            if pops and isinstance(pops[0].targets[0], ast.Tuple):
+                unpack = [pops[0]]      # popped and unpacked in one go
             skips = [st for st in loop.body if isinstance(st, ast.If) and
                      isinstance(st.test, ast.Compare) and
                      isinstance(st.test.ops[0], ast.In) and
